@@ -148,6 +148,7 @@ def run(ctx):
     r5_who(chk, fx)
     r6_rpc(chk, fx)
     r7_uris(chk, fx)
+    r8_builders_start_unset(chk, fx)
 
 
 # ---------------------------------------------------------------------------------------------
@@ -999,3 +1000,41 @@ def run_thorough(ctx):
                      key="C09/R5 witness %s" % re.sub(r" \(line \d+\)", "", name.replace("src/lib.rs - ", "")))
     chk.floor("C09/R5 witnesses", len(tests), 9)
     chk.extra["witness_cmd"] = "cargo +nightly test --doc --offline (in /verif/witness, path-depends on /repo/netconf)"
+
+
+# ---------------------------------------------------------------------------------------------
+def r8_builders_start_unset(chk, fx):
+    """Every capability-gated parameter reaches the operation only through its setter (R3/R4).  That is only worth something if the
+    builder does not start out with a value: a parameter pre-set in Builder::new (a 'sensible default' target, say) is sent without
+    ever having met the check.  Decided on the value Builder::new returns: each gated field is unset (None / Required{None} / false /
+    the type's Default, which the writers leave implicit)."""
+    n = 0
+    for name in sorted(fx.thir):
+        if not (name.startswith("<" + OPMOD + "::") and "as " + OPMOD + "::Builder<" in name and name.endswith("::new")):
+            continue
+        mod = name[len("<" + OPMOD + "::"):].split("::")[0]
+        gated = {f for (m, f) in SETTER_REQ if m == mod}
+        if not gated:
+            continue
+        paths = [p for p in A.Interp(fx, crates=("netconf",)).explore(name) if p.end != "abort" and p.ret is not None]
+        chk.analysed(name)
+        for p in paths:
+            fs = A.fields_of(p.ret) if p.ret[0] == "adt" else {}
+            for f in sorted(gated):
+                if f not in fs:
+                    continue
+                n += 1
+                v = fs[f]
+                txt = A.vstr(v)
+                unset = txt in ("None", "false", "Default::default()", "Required{value: None}") or (A.is_opt(v) and v[2] == "None")
+                table = SETTER_REQ.get((mod, f))
+                if not unset and isinstance(table, dict):
+                    # a pre-set value that needs no capability (reference table) is harmless
+                    variants = [x[2] for x in A.walk_value(v) if x[0] == "adt" and x[2] in table]
+                    if "Default::default()" in txt and not variants:
+                        variants = []
+                    unset = bool(variants) and all(table[x] == NONE for x in variants)
+                chk.instance("C09/R8", "%s::Builder::new leaves the gated parameter `%s` unset (%s)" % (mod, f, txt[:40]), name, loc_of(fx.thir[name].get("sp")),
+                             holds=unset, key="C09/R8 %s::Builder::new presets %s" % (mod, f),
+                             detail=None if unset else "the pre-set value never passes the capability check its setter applies")
+    chk.floor("C09/R8 gated builder fields", n, 12)
